@@ -330,7 +330,7 @@ define void @g(i32 %a, i32 %b) {
 !0 = !DIBasicType(name: "t", size: 32, encoding: 200)
 !1 = distinct !DICompileUnit(language: 40000, file: !7, emissionKind: 2, nameTableKind: 1)
 !2 = !DISubroutineType(cc: 1, types: !{})
-!3 = !DISubprogram(name: "f", virtuality: 2)
+!3 = !DISubprogram(name: "f", virtuality: 2, isDefinition: false)
 !6 = !DIStringType(name: "s", encoding: 77)
 !7 = !DIFile(filename: "a.c", directory: "/")
 !8 = !{i32 2, !"Debug Info Version", i32 3}
@@ -354,3 +354,24 @@ define void @g(i32 %a, i32 %b) {
 !4 = !DIBasicType(name: "z", flags: DIFlagPublic | 2097152 | DIFlagVector)
 !5 = !DISubprogram(name: "h", spFlags: DISPFlagLocalToUnit | 1024 | DISPFlagPure)
 !8 = !{i32 2, !"Debug Info Version", i32 3}
+;;; ATOM md/inline-specialized-attachments
+@g = global i32 0, !dbg !DIGlobalVariableExpression(var: !5, expr: !DIExpression())
+define void @f() !dbg !3 {
+  ret void, !dbg !DILocation(line: 4, scope: !3)
+}
+define void @h() !dbg !6 {
+  call void @f(), !dbg !DILocation(line: 9, column: 2, scope: !6), !x !{!"inline", !4}
+  ret void, !dbg !DILocation(line: 10, scope: !6)
+}
+!llvm.module.flags = !{!8}
+!llvm.dbg.cu = !{!1}
+!0 = !{!"unrelated node number zero"}
+!1 = distinct !DICompileUnit(language: DW_LANG_C99, file: !2, emissionKind: FullDebug, globals: !{})
+!2 = !DIFile(filename: "a.c", directory: "/")
+!3 = distinct !DISubprogram(name: "f", file: !2, line: 3, type: !7, spFlags: DISPFlagDefinition, unit: !1)
+!4 = !{}
+!5 = distinct !DIGlobalVariable(name: "g", scope: !1, file: !2, line: 1, type: !9, isLocal: false, isDefinition: true)
+!6 = distinct !DISubprogram(name: "h", file: !2, line: 8, type: !7, spFlags: DISPFlagDefinition, unit: !1)
+!7 = !DISubroutineType(types: !4)
+!8 = !{i32 2, !"Debug Info Version", i32 3}
+!9 = !DIBasicType(name: "int", size: 32, encoding: DW_ATE_signed)
